@@ -181,6 +181,13 @@ def chain_session(rng):
     s.link("c1", nm, "KA", b, rng.randrange(2) == 1)
     s.pubalias("c1", nm, rbytes(rng, 2))
     s.pubalias("c1", nm, rbytes(rng, 2))
+    # a shortcut whose channel carries options: they apply to every publish through it (me=0: not back to the publisher)
+    c3 = chan(rng)
+    s.sub("c1", "KA", c3)
+    s.sub("c2", "KA", c3)
+    s.link("c1", b"m", "KA", c3 + rng.choice([b"?me=0", b"?ttl=30&me=0", b"?me=1", b"?me=0&last=2"]), rng.randrange(2) == 1)
+    s.pubalias("c1", b"m", rbytes(rng, 2))
+    s.pubalias("c1", b"m", rbytes(rng, 2))
     s.dump()
     s.close("c1")
     for g in fam[:2]:
